@@ -32,8 +32,19 @@ Letters == {"x", "y", "z", "w", "r", "g", "b", "a", "q", "s"}
 Masks == UNION {[1..n -> Letters] : n \in 1..MaxMask}
 MaskCases == {[kind |-> "mask", size |-> n, mask |-> m, ok |-> MaskOk(m, n)] : n \in 2..4, m \in Masks}
 
+\* Compositions: a program with two element selections in some relation is accepted exactly if both selections are.
+\* Atoms are int-valued selections on  int[3] t, int2 iv  with index  int i / float x:
+Atoms == {[s |-> "arrc", c |-> c] : c \in {-1, 1, 3}} \cup {[s |-> "arrt", it |-> it] : it \in {"int-var", "float-var", "float-literal"}}
+         \cup {[s |-> "mask", m |-> m] : m \in {<<"x">>, <<"z">>, <<"x", "g">>, <<"y", "x">>}} \cup {[s |-> "vecc", c |-> c] : c \in {1, 2}}
+AtomOk(a) == CASE a.s = "arrc" -> ConstIndexOk(a.c, 3) [] a.s = "arrt" -> a.it = "int-var"
+               [] a.s = "mask" -> MaskOk(a.m, 2) [] a.s = "vecc" -> ConstIndexOk(a.c, 2)
+\* seq: two statements; fns: two functions; nested-member: a[S1].x + S2 (the first selection is the index of an element whose
+\* component is selected); nested-index: t[S1 % 3] + m[S2 % 3][0] (selections inside index expressions)
+Rels == {"seq", "fns", "nested-member", "nested-index"}
+CompCases == {[kind |-> "comp", rel |-> r, a |-> a, b |-> b, ok |-> AtomOk(a) /\ AtomOk(b)] : r \in Rels, a \in Atoms, b \in Atoms}
+
 VARIABLE case
-Init == case \in ArrCases \cup VecCases \cup MatCases \cup ITypCases \cup MaskCases
+Init == case \in ArrCases \cup VecCases \cup MatCases \cup ITypCases \cup MaskCases \cup CompCases
 Next == UNCHANGED case
 Spec == Init /\ [][Next]_case
 
